@@ -130,11 +130,91 @@ namespace c13
         na::assign_result(output, result, thread_id, block_id, block_size);
     }
 
+    // ------------------------------------------------------------------
+    // second operand route (the OpenCL kernels' way, and the literal text of the property): the kernel receives raw
+    // (pointer, shape pointer, dim) triples and every thread rebuilds its operands with create_array<0>(ptr,shape_ptr,dim)
+    // (= view::reshape(view::ref(ptr,numel),create_vector(shape_ptr,dim))) before applying the function.
+    using cl_size_t = uint32_t;
+    template <typename T>
+    struct RawOperand
+    {
+        const T* ptr;
+        const cl_size_t* shape_ptr;
+        cl_size_t dim;
+    };
+
+    template <typename T>
+    struct is_raw_operand : std::false_type {};
+    template <typename T>
+    struct is_raw_operand<RawOperand<T>> : std::true_type {};
+
+    struct ShapeMem
+    {
+        std::vector<std::unique_ptr<std::vector<cl_size_t>>> bufs;
+        std::vector<std::vector<cl_size_t>> snapshots;
+        bool intact() const
+        {
+            for (size_t i = 0; i < bufs.size(); i++) if (*bufs[i] != snapshots[i]) return false;
+            return true;
+        }
+    };
+
+    template <typename x_t>
+    auto to_raw(ShapeMem& sm, const x_t& x)
+    {
+        if constexpr (meta::is_num_v<x_t>) {
+            return x;
+        } else {
+            // x is the device_array built by create_device_array: same device buffer, shape copied to a uint32 buffer
+            using T = typename x_t::value_type;
+            auto v = std::make_unique<std::vector<cl_size_t>>();
+            for (size_t i = 0; i < (size_t)x.dim_; i++) v->push_back((cl_size_t)nm::at(x.shape_, i));
+            sm.snapshots.push_back(*v);
+            RawOperand<T> r{x.data_, v->data(), (cl_size_t)x.dim_};
+            sm.bufs.push_back(std::move(v));
+            return r;
+        }
+    }
+
+    template <typename pack_t, size_t... Is>
+    auto to_raw_tuple(ShapeMem& sm, const pack_t& pack, std::index_sequence<Is...>)
+    {
+        return nm::utl::tuple{to_raw(sm, nm::get<Is>(pack))...};
+    }
+
+    template <typename x_t>
+    auto rebuild_operand(const x_t& x)
+    {
+        if constexpr (is_raw_operand<x_t>::value) return na::create_array<0>(x.ptr, x.shape_ptr, x.dim);
+        else return x;
+    }
+
+    template <typename raw_t, size_t... Is>
+    auto rebuild_operands(const raw_t& raw, std::index_sequence<Is...>)
+    {
+        return nm::utl::tuple{rebuild_operand(nm::get<Is>(raw))...};
+    }
+
+    template <auto out_static_dim = 0, typename function_t, typename out_t, typename out_shape_t, typename out_dim_t, typename raw_t>
+    inline void kernel_body_raw(const function_t fun, out_t* out, const out_shape_t* out_shape_ptr, const out_dim_t out_dim,
+                                const raw_t raw, size_t thread_x, size_t block_x, size_t block_dim_x)
+    {
+        constexpr auto N = meta::len_v<raw_t>;
+        auto operands = rebuild_operands(raw, std::make_index_sequence<N>{});
+        auto output = na::create_mutable_array<out_static_dim>(out, out_shape_ptr, out_dim);
+        auto result = fn::apply(fun, operands);
+        auto thread_id = na::kernel_size<size_t>{{thread_x, 0, 0}};
+        auto block_id = na::kernel_size<size_t>{{block_x, 0, 0}};
+        auto block_size = na::kernel_size<size_t>{{block_dim_x, 1, 1}};
+        na::assign_result(output, result, thread_id, block_id, block_size);
+    }
+
     // geometry of one launch.  style 0: cuda/hip (thread = gid % bs, block = gid / bs, block_size = bs)
     //                          style 1: sycl     (thread = gid, block = 0, block_size = 1)
     struct Launch
     {
         int mt;                 // 0 sequential (per-thread write-set monitor), >0: number of host threads
+        int route;              // 0: device_array operands (cuda/hip/sycl kernels), 1: raw triples + create_array (opencl way)
         int style;
         size_t bs;
         size_t nblocks;
@@ -156,14 +236,8 @@ namespace c13
     constexpr long long SENTINEL = -77770000;
     constexpr long long GUARDVAL = -88880000;
 
-    template <typename T>
-    void emit_num(vh::Out& out, T v)
-    {
-        out.num(v);
-    }
-
     // runs all launches of a case on one (unwrapped, non-num) view
-    template <typename view_t>
+    template <bool WITH_RAW, typename view_t>
     void run_view(vh::Args& in, vh::Out& out, const view_t& view)
     {
         // ---- host evaluation (oracle #1, plus the output object the evaluator would allocate)
@@ -185,7 +259,8 @@ namespace c13
             auto gpu_args_pack = upload_operands(mem, operands);
             constexpr auto NARGS = meta::len_v<decltype(gpu_args_pack)>;
             const auto kernel_operands = to_utl_tuple(gpu_args_pack, std::make_index_sequence<NARGS>{});
-
+            ShapeMem shapemem;
+            [[maybe_unused]] const auto raw_operands = to_raw_tuple(shapemem, gpu_args_pack, std::make_index_sequence<NARGS>{});
             // ---- context_t::run_
             using out_element_t = meta::get_element_type_t<host_t>;
             const auto out_size = (size_t)nm::size(host);
@@ -195,6 +270,14 @@ namespace c13
             std::vector<out_shape_elem_t> shape_buffer;   // create_buffer(out_shape)
             for (size_t i = 0; i < (size_t)out_dim; i++) shape_buffer.push_back((out_shape_elem_t)nm::at(out_shape, i));
             const auto shape_snapshot = shape_buffer;
+
+            // one simulated device thread
+            auto one_thread = [&](int route, out_element_t* optr, const out_shape_elem_t* sptr, size_t t, size_t b, size_t bd) {
+                if constexpr (WITH_RAW) {
+                    if (route == 1) { kernel_body_raw<0>(f, optr, sptr, out_dim, raw_operands, t, b, bd); return; }
+                }
+                kernel_body<0>(f, optr, sptr, out_dim, kernel_operands, t, b, bd);
+            };
 
             const auto nlaunch = in.i();
             const auto guard = (size_t)in.i();
@@ -207,11 +290,13 @@ namespace c13
             for (long long li = 0; li < nlaunch; li++) {
                 Launch L;
                 L.mt = (int)in.i();
+                L.route = (int)in.i();
                 L.style = (int)in.i();
                 L.bs = (size_t)in.i();
                 L.nblocks = (size_t)in.i();
                 L.order = in.vec();
                 if (in.bad || L.bs == 0) { out.tok("ERR bad-launch"); return; }
+                if (L.route == 1 && !WITH_RAW) { out.tok("ERR no-raw-route"); return; }
 
                 // output_buffer = create_buffer<out_element_t>(out_size), here with guard regions on both sides
                 std::vector<out_element_t> buf(guard + out_size + guard);
@@ -232,7 +317,7 @@ namespace c13
                     for (auto g : L.order) {
                         size_t gid = (size_t)g, t, b, bd;
                         split_gid(L, gid, t, b, bd);
-                        kernel_body<0>(f, out_ptr, shape_ptr, out_dim, kernel_operands, t, b, bd);
+                        one_thread(L.route, out_ptr, shape_ptr, t, b, bd);
                         executed++;
                         if (gid < out_size) executed_in++;
                         for (size_t k = 0; k < buf.size(); k++) {
@@ -256,7 +341,7 @@ namespace c13
                             for (size_t k = w; k < order->size(); k += P) {
                                 size_t gid = (size_t)(*order)[k], t, b, bd;
                                 split_gid(L, gid, t, b, bd);
-                                kernel_body<0>(f, out_ptr, shape_ptr, out_dim, kernel_operands, t, b, bd);
+                                one_thread(L.route, out_ptr, shape_ptr, t, b, bd);
                             }
                         });
                     }
@@ -283,8 +368,23 @@ namespace c13
                 out.i(stray);
                 out.i(oob_writes);
                 out.i(own_writes);
-                out.i(mem.intact() ? 1 : 0);
+                out.i(mem.intact() && shapemem.intact() ? 1 : 0);
                 out.i(shape_buffer == shape_snapshot ? 1 : 0);
+                // bounds-hook violations at any other site during this launch: "<nsites> {site first0 first1}"
+                {
+                    std::vector<long long> hv;
+#ifdef NMTOOLS_VERIF
+                    for (int s = 0; s < nm::verif::NUM_SITES; s++) {
+                        if (s == nm::verif::KERNEL_WRITE || s == nm::verif::CLAMP || s == nm::verif::EVAL_SKIP) continue;
+                        if (nm::verif::state.violations[s]) {
+                            hv.push_back(s);
+                            hv.push_back(nm::verif::state.first[s][0]);
+                            hv.push_back(nm::verif::state.first[s][1]);
+                        }
+                    }
+#endif
+                    out.vec(hv);
+                }
                 bool same = prev.size() == buf.size();
                 for (size_t k = 0; same && k < buf.size(); k++) same = same_bits(prev[k], buf[k]);
                 if (same) {
@@ -299,16 +399,16 @@ namespace c13
         }
     }
 
-    template <typename view_t>
+    template <bool WITH_RAW, typename view_t>
     void run_any(vh::Args& in, vh::Out& out, const view_t& view)
     {
         if constexpr (meta::is_maybe_v<view_t>) {
             out.tok("M 1");
             if (!nm::has_value(view)) { out.tok("NOVIEW"); return; }
-            run_view(in, out, nm::unwrap(view));
+            run_view<WITH_RAW>(in, out, nm::unwrap(view));
         } else {
             out.tok("M 0");
-            run_view(in, out, view);
+            run_view<WITH_RAW>(in, out, view);
         }
     }
 
@@ -338,7 +438,7 @@ namespace c13
     }
 
     // case line:  <id> run <pipeline> <den> <A shape> <A data> <B shape> <B data> <C shape> <C data> <params>
-    //             <nlaunch> <guard> { <mt> <style> <bs> <nblocks> <order> }*
+    //             <nlaunch> <guard> { <mt> <route> <style> <bs> <nblocks> <order> }*
     template <typename T>
     Operands<T> read_operands(vh::Args& in)
     {
